@@ -549,20 +549,19 @@ EXTRA_NAMES = [
 CAT_DIM = {"cat_cols": -1, "cat_rows": -2, "x_cat3_rows": -2, "x_cat3_cols": -1, "x_cat_batch_inner": -3}
 
 
-def all_instances(tier, names):
+def all_instances(tier, names, dtypes=None, batches=None, sizes=None):
     """zoo instances + the extra cases, same grid / labels / seeds as zoo.instances"""
     import itertools
 
-    import torch
     from contracts import zoo
 
-    yield from zoo.instances(tier, names=names)
-    batches = zoo.BATCHES_QUICK if tier == "quick" else zoo.BATCHES_QUICK + [(1, 2), (3, 1, 2)]
-    sizes = zoo.SIZES_QUICK if tier == "quick" else [1, 2, 3, 4, 6, 9]
+    yield from zoo.instances(tier, names=names, dtypes=dtypes, batches=batches, sizes=sizes)
+    batches = batches or (zoo.BATCHES_QUICK if tier == "quick" else zoo.BATCHES_QUICK + [(1, 2), (3, 1, 2)])
+    sizes = sizes or (zoo.SIZES_QUICK if tier == "quick" else [1, 2, 3, 4, 6, 9])
     for c in extra_cases():
         if c.name not in names:
             continue
-        for dt, batch, n in itertools.product(zoo.DTYPES, batches, sizes):
+        for dt, batch, n in itertools.product(dtypes or zoo.DTYPES, batches, sizes):
             if c.name == "x_cat_batch_inner" and not batch:
                 continue
             label = f"{c.name}|{str(dt)[6:]}|b={batch}|n={n}"
@@ -573,7 +572,6 @@ def all_instances(tier, names):
                 yield (label, c, None, e)
                 continue
             yield (label, c, op, dense)
-    del torch
 
 
 # ------------------------------------------------------------------------------------------
@@ -586,10 +584,10 @@ BUDGET = {  # number of index tuples per operator instance and family
 
 
 def rtc_getitem(case_names, tier):
+    from contracts import zoo  # first: puts VERIF_REPO in front of sys.path
     import torch
     import linear_operator
     from linear_operator import settings
-    from contracts import zoo
     from contracts.rtc_common import Recorder
     from engine.common import SEED
 
@@ -635,6 +633,8 @@ def rtc_getitem(case_names, tier):
         done, td = rec.guard(f"oracle_to_dense/{c.name}", label, lambda: op.to_dense())
         if done:
             rec.check(f"oracle_to_dense/{c.name}", label, td.shape == dense.shape and zoo.close(td, dense, scale=4.0), "to_dense() != D (see C01)")
+        else:
+            continue  # results of indexing could not be densified either: reported once in this group (a C01 matter)
 
         # ---- diagonal
         if dense.shape[-1] == dense.shape[-2]:
